@@ -75,7 +75,7 @@ typedef struct vd_gram {
     vh_sb text;              /* what is given to the decoder */
     vfsa truth;              /* labels are BASE word spellings */
     char desc[200];
-    int has_onephone, has_alt_explicit, accepts_empty;
+    int has_onephone, has_alt_explicit, accepts_empty, has_explicit_filler;
 } vd_gram;
 /* transcript_bias: probability that the grammar contains the transcript of the recording */
 void vd_gram_random(vh_rng *r, int lang, int kind, double transcript_bias, vd_gram *g);
